@@ -656,8 +656,28 @@ func DrawRecords(t *rapid.T, format string, min, max int) []Record {
 		if coin(t, "gopatch", 2) {
 			g.Version += "." + strconv.Itoa(rapid.IntRange(0, 9).Draw(t, "gopatchn"))
 		}
+		if coin(t, "goboundary", 2) {
+			// the values around go 1.17 (since which go.mod lists every module of the build, so
+			// that the go.sum next to it adds nothing) and around go 1.21 (toolchain lines)
+			g.Version = pickS(t, "goboundaryv", "1.16", "1.16.0", "1.16.15", "1.17", "1.17.0", "1.17", "1.17.0", "1.17.1", "1.18", "1.21", "1.21.0")
+		}
 		if coin(t, "toolchain", 3) {
 			g.Attrs["toolchain"] = "go1." + strconv.Itoa(rapid.IntRange(21, 24).Draw(t, "tcminor")) + "." + strconv.Itoa(rapid.IntRange(0, 9).Draw(t, "tcpatch")) + pickS(t, "tcsuf", "", "", "-custom", "-bigcorp.1")
+		}
+		// a go.sum next to the go.mod (see GoSumEntries for the letters). It is not written when
+		// the go directive is below 1.17 and a toolchain line names a newer go: which of the two
+		// decides whether go.mod is complete is not documented for the reader under test.
+		if rapid.IntRange(0, 3).Draw(t, "gosum") > 0 && (g.Attrs["toolchain"] == "" || !GoBelow117(g.Version)) {
+			s := ""
+			for _, letter := range []string{"t", "o", "x", "m"} {
+				if coin(t, "gosum_"+letter, 2) {
+					s += letter
+				}
+			}
+			if s == "" {
+				s = "e" // an empty go.sum
+			}
+			g.Attrs["sum"] = s
 		}
 		pos := rapid.IntRange(0, len(recs)).Draw(t, "gopos")
 		recs = append(recs[:pos], append([]Record{g}, recs[pos:]...)...)
